@@ -17,7 +17,7 @@ RULE = ('Every element and composite node of every shipped map file that loads (
 ASSUMPTIONS = ['when a value contains a control character only the control-character code (and length codes) are asserted: the implementation deliberately stops there',
                'a missing required composite may be reported with code 1 or 2, a whole not-used composite with 5, 10 or I10 (the property does not pin these)',
                'nodes whose data element is undefined (C16 finding) are skipped; maps that cannot be loaded are skipped']
-REQUIRED_COUNTERS = ['exclusion:single-other-set-with-related-name', 'evals:exclusion-through-params', 'element-nodes', 'composite-nodes', 'evals:element', 'evals:composite', 'evals:with-qualifier', 'evals:with-exclusion', 'expected:1', 'expected:10', 'expected:4', 'expected:5',
+REQUIRED_COUNTERS = ['composite:required-component-left-off-the-end', 'exclusion:single-other-set-with-related-name', 'evals:exclusion-through-params', 'element-nodes', 'composite-nodes', 'evals:element', 'evals:composite', 'evals:with-qualifier', 'evals:with-exclusion', 'expected:1', 'expected:10', 'expected:4', 'expected:5',
                      'expected:6', 'expected:7', 'expected:8', 'expected:9', 'expected:none']
 MIN_CASES = {'quick': 150000, 'thorough': 2000000}
 WATCHDOG_S = {'quick': 1200, 'thorough': 7200}
@@ -224,6 +224,22 @@ def judge_composite(ctx, fn, rc, mc, charset, icvn, DE, CODES, rng, seen_nt):
         b = list(base)
         b[j] = good(s) if s.usage != 'N' else 'X'
         variants.append(('fill-%d' % (j + 1), b))
+    # values that stop before the definition does (components left off the end), alone and together with an earlier fault in the same value:
+    # every required component that is left off is a finding of its own, whatever else is wrong
+    for c in range(1, len(subs)):
+        full = [good(s) or 'X' if s.usage != 'N' else '' for s in subs]
+        if full[c - 1] == '':
+            continue                      # (the value would end in an empty component: same as a shorter cut)
+        variants.append(('cut-%d' % c, full[:c]))
+        b = full[:c]
+        b[0] = 'A' * (DE[subs[0].data_ele][2] + 1)
+        variants.append(('cut-%d-with-earlier-fault' % c, b))
+        if c >= 2 and subs[0].usage == 'R':
+            b = full[:c]
+            b[0] = ''
+            variants.append(('cut-%d-with-earlier-gap' % c, b))
+        if any(s.usage == 'R' for s in subs[c:]):
+            ctx.count('composite:required-component-left-off-the-end')
     first_only = [''] * len(subs)
     if subs:
         first_only[-1] = good(subs[-1]) or 'X'
